@@ -90,10 +90,12 @@ void Oomd::updateContext() {
     const static double factor300 = std::exp(-interval_.count() / 300.0);
 
     auto& prev_system_ctx = ctx_.getSystemContext();
-    if (prev_system_ctx.vmstat.size() > 0) {
-      auto swapout_bps = (system_ctx.vmstat.at("pswpout") -
-                          prev_system_ctx.vmstat.at("pswpout")) *
-          4096.0 / interval_.count();
+    auto pswpout = system_ctx.vmstat.find("pswpout");
+    auto prev_pswpout = prev_system_ctx.vmstat.find("pswpout");
+    if (pswpout != system_ctx.vmstat.end() &&
+        prev_pswpout != prev_system_ctx.vmstat.end()) {
+      auto swapout_bps =
+          (pswpout->second - prev_pswpout->second) * 4096.0 / interval_.count();
       system_ctx.swapout_bps = swapout_bps;
       system_ctx.swapout_bps_60 = swapout_bps +
           factor60 * (prev_system_ctx.swapout_bps_60 - swapout_bps);
